@@ -227,6 +227,10 @@ def unit(u, res):
     COMMA, SEMI = C.VI('Token', 'Comma'), C.VI('Token', 'Semicolon')
     for pi, o in enumerate(outs):
         res.nontrivial_paths += 1
+        if pr.rng.random() < 0.03:
+            fe_, m_ = pr.feasible(o.pc)
+            if fe_:
+                validate_tree_path(C, res, S, o, m_, random.Random(1), 2.0)
         # one obligation per separator assignment feasible on this path
         for combo in itertools.product(',;', repeat=len(seq_slots)):
             seps = {i: s for (i, v), s in zip(seq_slots, combo)}
